@@ -96,13 +96,13 @@ def _child_unlimited() -> None:
 def cap_address_space() -> None:
     """Decoders fed with hostile bytes (pickle above all) may ask for tens of gigabytes in one allocation; with memory
     overcommit that 'works' and costs minutes of page faults (measured: 32 GB resident, 6 min, for one mutated pickle).
-    A soft cap on the address space of the harness process makes such a request fail at once with MemoryError, which the
+    A soft cap (6 GB by default) on the address space of the harness process makes such a request fail at once with MemoryError, which the
     code under test must (and does) turn into a parse error.  VERIF_AS_LIMIT_GB=0 disables the cap."""
     import resource
     try:
-        gb = float(os.environ.get("VERIF_AS_LIMIT_GB", "12"))
+        gb = float(os.environ.get("VERIF_AS_LIMIT_GB", "6"))
     except ValueError:
-        gb = 12.0
+        gb = 6.0
     if gb <= 0:
         return
     soft, hard = resource.getrlimit(resource.RLIMIT_AS)
@@ -424,6 +424,7 @@ def main_check(mod, argv: list[str] | None = None) -> int:
 
 def replay(mod, path: Path) -> int:
     obj = json.loads(path.read_text())
+    cap_address_space()
     case = obj.get("case")
     if case is None:
         print(json.dumps(obj, indent=1))
